@@ -10,8 +10,10 @@ import (
 	"strings"
 	"sync"
 	"sync/atomic"
+	"time"
 
 	"github.com/iancoleman/strcase"
+	"github.com/xinchentechnote/fin-protoc/verifharness/cli"
 	"github.com/xinchentechnote/fin-protoc/verifharness/dsl"
 	"github.com/xinchentechnote/fin-protoc/verifharness/inproc"
 	"github.com/xinchentechnote/fin-protoc/verifharness/pbt"
@@ -33,6 +35,9 @@ type xCase struct {
 	Msgs  []xMsg       `json:"msgs"`
 	Langs []string     `json:"langs"`
 	Tests bool         `json:"tests,omitempty"` // also build (and for C17 run) the emitted self-tests
+	// ViaCLI: take the emitted files from the built CLI writing into directories that already hold
+	// longer files of the same names (a previous, larger revision), not from the in-process maps
+	ViaCLI bool `json:"via_cli,omitempty"`
 }
 
 // langRun is what one language did with a case.
@@ -86,6 +91,15 @@ func runCase(k xCase, keep bool) *xRun {
 		return x
 	}
 	x.Files = res.Files
+	if k.ViaCLI && cli.Bin() != "" {
+		if files, note := filesViaCLI(x.Text, k.Langs, res.Files); files != nil {
+			x.Files = files
+			res.Files = files
+		} else {
+			x.Rejected = "CLI: " + note
+			return x
+		}
+	}
 	modes := 1
 	if x.HasSum {
 		modes = 2
@@ -391,4 +405,33 @@ func findField(p *dsl.Program, owner, name string) *dsl.Field {
 		}
 	}
 	return nil
+}
+
+// filesViaCLI compiles text with the built CLI into output directories that already contain a
+// longer "previous revision" of every file, and returns what is on disk afterwards.
+func filesViaCLI(text string, langs []string, inproc map[string]map[string][]byte) (map[string]map[string][]byte, string) {
+	dir := cli.Scratch("viacli")
+	defer os.RemoveAll(dir)
+	in := filepath.Join(dir, "in.dsl")
+	_ = os.WriteFile(in, []byte(text), 0o644)
+	args := []string{"compile", "-f", in}
+	for _, l := range langs {
+		out := filepath.Join(dir, "out_"+l)
+		for name, b := range inproc[l] {
+			fp := filepath.Join(out, name)
+			_ = os.MkdirAll(filepath.Dir(fp), 0o755)
+			stale := append(append([]byte{}, b...), []byte("\nthis is the tail of a previous, longer revision of the file {{{ \n")...)
+			_ = os.WriteFile(fp, stale, 0o644)
+		}
+		args = append(args, cli.Flags[l], out)
+	}
+	r := cli.Run(dir, 120*time.Second, nil, nil, cli.Bin(), args...)
+	if r.Exit != 0 {
+		return nil, fmt.Sprintf("exit %d: %s", r.Exit, clip(string(r.Stdout)+string(r.Stderr), 200))
+	}
+	files := map[string]map[string][]byte{}
+	for _, l := range langs {
+		files[l] = cli.ReadTree(filepath.Join(dir, "out_"+l))
+	}
+	return files, ""
 }
